@@ -381,8 +381,13 @@ func (h *hist) obsString(withClose bool) string {
 			} else if nl > 0 {
 				lim = "?"
 			}
-			downs = append(downs, fmt.Sprintf("%d/%d/%d/%s/%s/%s/%s", num(d.Id), num(d.RemoteOwner), num(d.RemoteId),
-				dash(strings.Join(trs, "+")), lim, reqString(d.HasRequested, d.Requested), tr.B(d.HaveLocal)))
+			// have-local-offer, and N if a renegotiation is deferred until the answer
+			neg := ""
+			if d.Negotiation > 0 {
+				neg = "N"
+			}
+			downs = append(downs, fmt.Sprintf("%d/%d/%d/%s/%s/%s/%s%s", num(d.Id), num(d.RemoteOwner), num(d.RemoteId),
+				dash(strings.Join(trs, "+")), lim, reqString(d.HasRequested, d.Requested), tr.B(d.HaveLocal), neg))
 		}
 		sort.Strings(downs)
 		var outs []string
